@@ -196,7 +196,36 @@ def run(ctx):
                            "result": tr["result"], "lines_returned": len(tr["lines"])})
     ctx.sample({"trace": {k: (v if k != "_hex" else v[:80] + "...") for k, v in traces[0].items() if k not in ("plain", "body", "lines")}})
     _large_leg(ctx, I, rnd, quick)
+    _v1_leg(ctx, I)
     ctx.exhaustive = quick
+
+
+def _v1_leg(ctx, I):
+    """format v1: every body of <= 3 lines over {m, n} x {mod, class, function} (repeated names included): the table is
+    Sphinx's for the same bytes (in v1 a repeated name is overwritten by the later line, also for modules)"""
+    import itertools
+    lines = [f"{n} {t} {n}{t[0]}.html" for n in ("m", "n") for t in ("mod", "class", "function")]
+    k = 0
+    for ln in range(0, 4):
+        for combo in itertools.product(range(len(lines)), repeat=ln):
+            body = "".join(lines[i].replace(".html", f"{pos}.html") + "\n" for pos, i in enumerate(combo))
+            data = f"{H1}\n# Project: P\n# Version: 1\n{body}".encode()
+            k += 1
+            ctx.count(("v1", body), nontrivial=len({lines[i].split()[0] for i in combo}) < len(combo))
+            ctx.traces_validated += 1
+            case = {"leg": "R-v1", "file_text": data.decode()}
+            try:
+                want = sorted(_sphinx_flat(data), key=repr)
+            except Exception as e:  # noqa: BLE001
+                raise tlc.MachineryFailure(f"Sphinx's loader failed on a v1 file: {e}")
+            try:
+                got = sorted(_flat(I.load(io.BytesIO(data))), key=repr)
+            except Exception as e:  # noqa: BLE001
+                ctx.violation(f"load() of a v1 inventory raised {type(e).__name__}: {e}", case)
+                continue
+            if got != want:
+                ctx.violation("v1 inventory: the loaded table differs from Sphinx's for the same bytes", {**case, "got": got, "sphinx": want})
+    ctx.leg("R-v1", files=k)
 
 
 def _large_leg(ctx, I, rnd, quick):
@@ -264,7 +293,7 @@ def _serialise(lines, unterminated=False):
         dom, typ, colon = e["ty"]
         tfield = f"{dom}:{typ}" if colon else dom
         loc = "" if e["eloc"] else "p.html#" + ("$" if e["dollar"] else f"q{k}")
-        out.append(f"{e['name']} {tfield} {(-1) ** k * k} {loc} {e['disp']}\n")
+        out.append(f"{e['name']} {tfield} {(-1) ** k * k} {loc} {'' if e['disp'] == 'E' else e['disp']}\n")
     body = "".join(out)
     if unterminated and body.endswith("\n"):
         body = body[:-1]
@@ -280,8 +309,8 @@ def _replay_table(ctx, I, rec, idx, rnd, quick):
     sph = _sphinx_flat(data)
     if sorted(sph, key=repr) != sorted(exp, key=repr):
         raise tlc.MachineryFailure(f"InvEntry model disagrees with Sphinx's loader on {text!r}: {exp} vs {sph}")
-    keys = [(e["ty"][0], e["ty"][1], e["name"]) for e in rec["lines"] if e["ty"][2]]
-    nontrivial = len(set(keys)) < len(keys) or any(not e["ty"][2] or e["dollar"] or e["eloc"] or " " in e["name"] for e in rec["lines"])
+    keys = [(e["ty"][0], e["ty"][1], e["name"]) for e in rec["lines"] if e["ty"][2] and e["disp"] != "E"]
+    nontrivial = len(set(keys)) < len(keys) or any(not e["ty"][2] or e["disp"] == "E" or e["dollar"] or e["eloc"] or " " in e["name"] for e in rec["lines"])
     scheds = [[len(data)], [1] * len(data)]
     if idx % 50 == 0:
         scheds += [[k] for k in range(1, len(data))]
